@@ -19,7 +19,10 @@ def handler(c):
         if k == 'sim':
             # 'naive': the same wall-clock instants handed over without a time zone (the clock stamps UTC itself)
             tsx = (lambda x: ts(x).tz_localize(None)) if c.get('naive') else ts
-            eng = DailyBusinessDaySimulationEngine(tsx(c['start']), tsx(c['stop']), pre_market=c['pre'], post_market=c['post'])
+            # the switches as Python bools, numpy bools or 0/1 integers (all accepted, all mean the same)
+            fk = c.get('flagkind', 'bool')
+            conv = {'bool': bool, 'np': np.bool_, 'int': int}[fk]
+            eng = DailyBusinessDaySimulationEngine(tsx(c['start']), tsx(c['stop']), pre_market=conv(c['pre']), post_market=conv(c['post']))
             walk = list(eng)
             if any(e.ts.tzinfo is None or e.ts.utcoffset().total_seconds() != 0 for e in walk):
                 return ['ok', [['not-utc', str(e.ts)] for e in walk][:3]]
@@ -49,6 +52,16 @@ def handler(c):
                 out.append([[sec(e.ts), e.event_type] for e in eng])         # the walk the schedule is matched against
                 out.append(n_first)
             return out
+        if k == 'sess_sched':
+            from qstrader.trading.backtest import BacktestTradingSession
+            from qstrader.asset.universe.static import StaticUniverse
+            from qstrader.alpha_model.fixed_signals import FixedSignalsAlphaModel
+            kw = {'rebalance_weekday': c['weekday']} if c['which'] == 'weekly' else {}
+            sess = BacktestTradingSession(ts(c['start']), ts(c['stop']), StaticUniverse(['EQ:A']), FixedSignalsAlphaModel({'EQ:A': 1.0}),
+                                          rebalance=c['which'], long_only=True, cash_buffer_percentage=0.05,
+                                          burn_in_dt=(None if c.get('burn') is None else ts(c['burn'])),
+                                          data_handler=StubDataHandler([]), **kw)
+            return ['ok', [sec(x) for x in sess.rebalance_schedule]]
         if k == 'civil':
             res = []
             for d in c['days']:
